@@ -204,6 +204,26 @@ Theorem C05_order_preserved_cached_append : forall pc ms o idx pc',
 Proof. exact cached_append_lands. Qed.
 Print Assumptions C05_order_preserved_cached_append.
 
+(* D4, existing operations among themselves, every insert (any strategy, index, operation tree, cached or
+   not, succeeding or raising): the old linearisation is a subsequence of the new one *)
+Theorem C05_existing_order_kept : forall c i its s c' r,
+  insert c i its s = (c', r) -> sub (lin (moms c)) (lin (moms c')).
+Proof. exact insert_keeps_existing_order. Qed.
+Print Assumptions C05_existing_order_kept.
+
+(* D4 for append / += / Circuit(tree) with the default strategy, any operation tree, cached or not: the
+   items are taken in order, each operation is put at a place behind which nothing conflicts with it (so it
+   follows every conflicting operation that was there or was inserted before it), each Moment goes last *)
+Theorem C05_order_preserved_append : forall c its, cache_ok c ->
+  exists c' z, append c its EARLIEST = (c', inl z) /\ reach (lin (moms c)) its (lin (moms c')).
+Proof. exact append_order. Qed.
+Print Assumptions C05_order_preserved_append.
+
+Theorem C05_order_preserved_constructor : forall its,
+  exists c', construct its EARLIEST = (c', inl 0) /\ reach [] its (lin (moms c')).
+Proof. exact construct_order. Qed.
+Print Assumptions C05_order_preserved_constructor.
+
 (* the order clause is refuted for three calls (genuine defects of /repo, known findings) *)
 Theorem C05_concat_ragged_order_refuted :
   exists c others c', Forall wf (moms c :: others) /\ concat_ragged c others LEFT = (c', inl 0) /\
